@@ -38,7 +38,13 @@ pub fn run(rec: &mut Recorder, w: &mut World, tier: &str, seed: u64) {
         let mode = *rng.pick(&["allow-override", "allow-override", "deny-override", "allow-and-deny"]);
         let eff = match mode { "allow-override" => E_ALLOW, "deny-override" => E_DENY, _ => E_BOTH };
         let with_eft = mode != "allow-override" || rng.chance(1, 2);
-        let m = model_of(&k, eff, with_eft, "", false);
+        // every fifth configuration keeps its rules under a second policy definition p2 (managed through the named calls) and
+        // is asked through enforce_with_context("2")
+        let ctx = ci % 5 == 4;
+        let pk = if ctx { "p2" } else { "p" };
+        let mut m = model_of(&k, eff, with_eft, "", false);
+        if ctx { let b2 = model_of(&k, eff, with_eft, "2", rng.chance(1, 2)); m.r.extend(b2.r); m.p.extend(b2.p); m.e.extend(b2.e); m.m.extend(b2.m); rec.count("asked-through:enforce_with_context"); }
+        let ask = |reqf: &str| if ctx { format!("e.enfcs\t2\t{}", reqf) } else { format!("e.enfs\t{}", reqf) };
         let mut rules: Vec<Vec<String>> = vec![];
         let big = rng.chance(1, 8);
         for _ in 0..(if big { rng.below(25) } else { rng.below(4) }) { let r = gen_rule(&mut rng, &k, with_eft); if !rules.contains(&r) { rules.push(r); } }
@@ -48,12 +54,12 @@ pub fn run(rec: &mut Recorder, w: &mut World, tier: &str, seed: u64) {
         // every fourth configuration runs on a CachedEnforcer (the property is about what callers observe)
         let cached = ci % 4 == 3;
         if cached { rec.exec(w, "e.cached\ttrue"); rec.count("enforcer:cached"); }
-        let r0 = new_enforcer(rec, w, &m, "memory", &lines_of("p", &rules, &k.g, &links), "", false);
+        let r0 = new_enforcer(rec, w, &m, "memory", &lines_of(pk, &rules, &k.g, &links), "", false);
         if r0 != "ok" { if cached { rec.exec(w, "e.cached\tfalse"); } continue; }
         let reqs = requests(&k);
         let reqf = enc_reqs(&reqs);
         let steps = 1 + rng.below(4);
-        let mut before = rec.exec(w, &format!("e.enfs\t{}", reqf));
+        let mut before = rec.exec(w, &ask(&reqf));
         let mut cur_rules = rules.clone();
         let mut descr: Vec<String> = vec![];
         for _ in 0..steps {
@@ -61,17 +67,17 @@ pub fn run(rec: &mut Recorder, w: &mut World, tier: &str, seed: u64) {
             let (line, kind): (String, &str) = match rng.below(if k.g.is_empty() { 2 } else { 4 }) {
                 // under allow-override sometimes a rule with a field too few or too many (an error when reached — never a grant),
                 // sometimes one batch naming the new rule twice
-                0 if mode == "allow-override" && rng.chance(1, 8) => { let mut r = gen_rule(&mut rng, &k, with_eft); if rng.chance(1, 2) { r.pop(); } else { r.push("extra".to_string()); } rec.count("step:add-rule-of-wrong-length"); (MOp::Add("p".into(), "p".into(), r).line(), "add-rule") }
-                0 if rng.chance(1, 6) => { let r = gen_rule(&mut rng, &k, with_eft); rec.count("step:batch-with-repeated-rule"); (MOp::AddM("p".into(), "p".into(), vec![r.clone(), r]).line(), "add-rule") }
-                0 => { let r = gen_rule(&mut rng, &k, with_eft); (MOp::Add("p".into(), "p".into(), r).line(), "add-rule") }
-                1 => { if cur_rules.is_empty() { continue; } let r = cur_rules[rng.below(cur_rules.len())].clone(); (MOp::Rm("p".into(), "p".into(), r).line(), "remove-rule") }
+                0 if mode == "allow-override" && rng.chance(1, 8) => { let mut r = gen_rule(&mut rng, &k, with_eft); if rng.chance(1, 2) { r.pop(); } else { r.push("extra".to_string()); } rec.count("step:add-rule-of-wrong-length"); (MOp::Add("p".into(), pk.into(), r).line(), "add-rule") }
+                0 if rng.chance(1, 6) => { let r = gen_rule(&mut rng, &k, with_eft); rec.count("step:batch-with-repeated-rule"); (MOp::AddM("p".into(), pk.into(), vec![r.clone(), r]).line(), "add-rule") }
+                0 => { let r = gen_rule(&mut rng, &k, with_eft); (MOp::Add("p".into(), pk.into(), r).line(), "add-rule") }
+                1 => { if cur_rules.is_empty() { continue; } let r = cur_rules[rng.below(cur_rules.len())].clone(); (MOp::Rm("p".into(), pk.into(), r).line(), "remove-rule") }
                 2 => { let gi = rng.below(k.g.len()); let r = rng.pick(&k.links[gi]).clone(); (MOp::Add("g".into(), k.g[gi].0.clone(), r).line(), "add-link") }
                 _ => { let gi = rng.below(k.g.len()); let r = rng.pick(&k.links[gi]).clone(); (MOp::Rm("g".into(), k.g[gi].0.clone(), r).line(), "remove-link") }
             };
-            let store_was_empty = rec.exec(w, "e.get\tp\tp") == "-";
+            let store_was_empty = rec.exec(w, &format!("e.get\tp\t{}", pk)) == "-";
             let res = rec.exec(w, &line);
             descr.push(line.replace('\t', " "));
-            let after = rec.exec(w, &format!("e.enfs\t{}", reqf));
+            let after = rec.exec(w, &ask(&reqf));
             let (gb, ga) = (granted(&before), granted(&after));
             let f = line.split('\t').collect::<Vec<_>>();
             let rule_fields = if f[0] == "e.addm" { dec_lists(f[3]).into_iter().next().unwrap_or_default() } else { dec_list(f[3]) };
@@ -87,7 +93,7 @@ pub fn run(rec: &mut Recorder, w: &mut World, tier: &str, seed: u64) {
             if res == "true" { rec.count("step:changed-store"); }
             if let Some((i, what)) = viol {
                 // the one specified corner: an empty store evaluates the matcher on empty fields
-                let store_is_empty = rec.exec(w, "e.get\tp\tp") == "-";
+                let store_is_empty = rec.exec(w, &format!("e.get\tp\t{}", pk)) == "-";
                 let sig = if (store_was_empty && kind == "add-rule") || (store_is_empty && kind == "remove-rule") { "empty-store-grant" } else { "not-monotone" };
                 rec.fail(sig, format!("[{} {}] {}: request {:?} went {} -> {} after {} (matcher {})", k.name, mode, what, reqs[i], &before[i..i + 1], &after[i..i + 1], descr.join(" ; "), m.m[0].2));
             }
